@@ -53,6 +53,7 @@ package hessian
 //@   assigns @out, @W, @nwrites, @tr
 //@   sets @tr = snoc(old(@tr), tokenof(bytes))
 //@   ensures [C15:W] (@W && !old(@W)) ==> err != nil
+//@   ensures [C13,C01:error-only-from-the-writer] err != nil ==> @W
 
 //@ func (*Encoder).writeBT
 //@   requires len(bs) == 1
@@ -60,37 +61,44 @@ package hessian
 //@   sets @tr = snoc(old(@tr), TByte(bs[0]))
 //@   sets @opens = old(@opens) + ite(G.opens(bs[0]), 1, 0)
 //@   ensures [C15:W] (@W && !old(@W)) ==> err != nil
+//@   ensures [C13,C01:error-only-from-the-writer] err != nil ==> @W
 
 //@ func (*Encoder).writeInt
 //@   assigns @out, @W, @nwrites, @tr
 //@   sets @tr = snoc(old(@tr), TInt(value))
 //@   ensures [C15:W] (@W && !old(@W)) ==> err != nil
+//@   ensures [C13,C01:error-only-from-the-writer] err != nil ==> @W
 
 //@ func (*Encoder).writeLong
 //@   assigns @out, @W, @nwrites, @tr
 //@   sets @tr = snoc(old(@tr), TLong(value))
 //@   ensures [C15:W] (@W && !old(@W)) ==> err != nil
+//@   ensures [C13,C01:error-only-from-the-writer] err != nil ==> @W
 
 //@ func (*Encoder).writeDouble
 //@   assigns @out, @W, @E, @nwrites, @tr
 //@   sets @tr = snoc(old(@tr), TDouble(value))
 //@   ensures [C15:W] (@W && !old(@W)) ==> err != nil
+//@   ensures [C13,C01:error-only-from-the-writer] err != nil ==> @W
 //@   ensures [C13:E] (@E && !old(@E)) ==> err != nil
 
 //@ func (*Encoder).writeBoolean
 //@   assigns @out, @W, @nwrites, @tr
 //@   sets @tr = snoc(old(@tr), TBool(value))
 //@   ensures [C15:W] (@W && !old(@W)) ==> err != nil
+//@   ensures [C13,C01:error-only-from-the-writer] err != nil ==> @W
 
 //@ func (*Encoder).writeBinary
 //@   assigns @out, @W, @nwrites, @tr
 //@   sets @tr = snoc(old(@tr), TBin(value))
 //@   ensures [C15:W] (@W && !old(@W)) ==> err != nil
+//@   ensures [C13,C01:error-only-from-the-writer] err != nil ==> @W
 
 //@ func (*Encoder).writeString
 //@   assigns @out, @W, @nwrites, @tr
 //@   sets @tr = snoc(old(@tr), TStr(value))
 //@   ensures [C15:W] (@W && !old(@W)) ==> err != nil
+//@   ensures [C13,C01:error-only-from-the-writer] err != nil ==> @W
 
 // ---------------------------------------------------------------- references (C04)
 // @clashes: registrations skipped because the address was already registered with another kind.
@@ -228,6 +236,7 @@ package hessian
 //@   proves [C01,C02:kind-list]     err == nil && !null && (k == K.Slice || k == K.Array) ==> @lastwriter == 1
 //@   proves [C01,C02:kind-map]      err == nil && !null && k == K.Map ==> @lastwriter == 2
 //@   proves [C01,C02:kind-struct]   err == nil && !null && k == K.Struct ==> @lastwriter == 3
+//@   proves [C01,C13:scalar-accepted] !@W && (null || k == K.Bool || k == K.String || k == K.Int8 || k == K.Int16 || k == K.Int32 || (k == K.Int && int64(int32(R.int(v))) == R.int(v)) || k == K.Uint8 || k == K.Uint16 || k == K.Int64 || ((k == K.Uint || k == K.Uint32 || k == K.Uint64) && int64(R.uint(v)) >= 0) || k == K.Float32 || k == K.Float64) ==> err == nil
 //@   proves [C13:kind-unsupported]  !null && !(k == K.Bool || k == K.String || k == K.Int8 || k == K.Int16 || k == K.Int32 || k == K.Int || k == K.Uint8 || k == K.Uint16 || k == K.Int64 || k == K.Uint || k == K.Uint32 || k == K.Uint64 || k == K.Float32 || k == K.Float64 || k == K.Slice || k == K.Array || k == K.Map || k == K.Struct) ==> err != nil
 
 // ---------------------------------------------------------------- entry points (C06, C11, C13, C15)
